@@ -66,8 +66,8 @@ type Frame struct {
 	defers    []*deferred
 	onRet     func(Value)
 	symVisits map[*ssa.BasicBlock]int
-	recovered bool
 	unwinding bool
+	pan       *panicInfo
 	rec       *recoverCtx
 }
 
@@ -339,9 +339,6 @@ func (w *World) goPanic(g *G, msg string, val Value) {
 	}
 	g.panic = &panicInfo{val: val, msg: msg, site: site + " <- " + strings.Join(stack, " <- "), stack: full}
 	w.tracef("g%d PANIC %s at %s", g.id, msg, site)
-	if len(g.frames) > 0 {
-		g.frames[len(g.frames)-1].unwinding = true
-	}
 }
 
 // ---- the main loop ----
@@ -354,69 +351,71 @@ func (w *World) run(g *G) {
 			w.abort("step limit %d exceeded", w.cfg.MaxSteps)
 		}
 		if g.panic != nil {
-			w.unwind(g)
-			continue
+			if len(g.frames) == 0 {
+				w.crash(g, g.panic)
+				continue
+			}
+			top := g.frames[len(g.frames)-1]
+			top.unwinding, top.pan = true, g.panic
+			g.panic = nil
 		}
 		fr := g.frames[len(g.frames)-1]
+		if fr.unwinding {
+			w.unwind(g, fr)
+			continue
+		}
 		instr := fr.blk.Instrs[fr.pc]
 		w.exec(g, fr, instr)
 	}
 }
 
-// unwind performs one step of panic propagation.
-func (w *World) unwind(g *G) {
-	if len(g.frames) == 0 {
-		w.crash(g)
-		return
-	}
-	fr := g.frames[len(g.frames)-1]
+// unwind performs one step of panic propagation in frame fr (the top frame): run its deferred calls
+// one at a time; when none is left either resume at the Recover block (the panic was recovered) or
+// pop the frame and continue in the caller.
+func (w *World) unwind(g *G, fr *Frame) {
 	if n := len(fr.defers); n > 0 {
 		d := fr.defers[n-1]
 		fr.defers = fr.defers[:n-1]
-		saved := g.panic
-		g.panic = nil // deferred call runs normally; panic is restored afterwards unless recovered
-		w.callValue(g, d.fn, d.args, func(Value) {
-			if fr.recovered {
-				return
-			}
-			g.panic = saved
-		})
-		// let recover() inside the deferred function find the panic
-		if top := g.frames[len(g.frames)-1]; top != fr {
-			top.rec = &recoverCtx{saved, fr}
+		before := len(g.frames)
+		w.callValue(g, d.fn, d.args, func(Value) {})
+		if len(g.frames) > before {
+			g.frames[len(g.frames)-1].rec = &recoverCtx{fr: fr}
 		}
 		return
 	}
-	if fr.recovered {
-		// resume at the Recover block of the function, or return zero values
-		fr.recovered = false
-		g.panic = nil
+	fr.unwinding = false
+	if fr.pan == nil {
+		// recovered: resume at the Recover block of the function, or return zero values
 		if fr.fn.Recover != nil {
 			fr.prev, fr.blk, fr.pc = fr.blk, fr.fn.Recover, 0
 			return
 		}
 		g.frames = g.frames[:len(g.frames)-1]
-		if fr.onRet != nil {
-			fr.onRet(w.zeroResult(fr.fn.Signature))
-		}
 		if len(g.frames) == 0 {
 			g.done = true
 		}
+		if fr.onRet != nil {
+			fr.onRet(w.zeroResult(fr.fn.Signature))
+		}
 		return
 	}
+	p := fr.pan
+	fr.pan = nil
 	g.frames = g.frames[:len(g.frames)-1]
 	if len(g.frames) == 0 {
-		w.crash(g)
+		w.crash(g, p)
+		return
 	}
+	top := g.frames[len(g.frames)-1]
+	top.unwinding, top.pan = true, p
 }
 
 type recoverCtx struct {
-	p  *panicInfo
 	fr *Frame
 }
 
-func (w *World) crash(g *G) {
-	p := g.panic
+func (w *World) crash(g *G, p *panicInfo) {
+	g.panic = nil
 	g.done = true
 	v := &Violation{Kind: "panic", Label: "panic", Msg: p.msg, Site: p.site, Stack: p.stack}
 	w.addViolation(v)
